@@ -143,8 +143,37 @@ def replay(prop, path):
         if bad:
             print("VIOLATION property=%s replay=%s" % (prop, path)); return 1
         print("replay: property %s holds on this case" % prop); return 0
-    print("replay for stage %r: see the stage's own command in the replay file" % r.get("stage"))
-    return 2
+    if r.get("stage") == "edges":
+        build_harness()
+        from . import tlc
+        d = os.path.join(WORK, "replay_run"); os.makedirs(d, exist_ok=True)
+        ef = os.path.join(d, "edge.json"); json.dump(r["edge"], open(ef, "w"))
+        of = os.path.join(d, "edge.ndjson")
+        run([PFV, "edge-one", ef, of])
+        res = tlc.run_trace_shards("replay", "TraceEdges.tla", "TraceEdges.cfg", [of])
+        bad = False
+        for vals, st, wall in res:
+            for v in vals:
+                if v and v[0] == "MSGS":
+                    for m in v[1]:
+                        print(m)
+                        if m[0] == "V" and m[2] == prop: bad = True
+        if bad:
+            print("VIOLATION property=%s replay=%s" % (prop, path)); return 1
+        print("replay: property %s holds on this edge" % prop); return 0
+    # history / call stages: the cheapest faithful replay is the stage itself (seconds to a minute) on the
+    # current tree with the same VERIF_SEED; the recorded case is in the replay file for reference
+    fn = CHECKS.get(prop)
+    if fn is None:
+        print("unknown property", prop); return 2
+    os.environ["VERIF_NOCACHE"] = "1"
+    res = fn(tier())
+    hits = [v for v in res.violations if v["replay"].get("stage") == r.get("stage")]
+    for v in hits[:5]:
+        print("reproduced:", v["desc"][:400])
+    if hits:
+        print("VIOLATION property=%s replay=%s" % (prop, path)); return 1
+    print("replay: stage %r re-run on the current tree reports no violation of %s" % (r.get("stage"), prop)); return 0
 
 # ---------------------------------------------------------------------------
 ASSUME_TRACE = ["hook events (cfg pickle_fuzzer_verif) report the generator's real output length, stack kinds and memo keys",
